@@ -215,6 +215,8 @@ def validate (cs : Case) : String := Id.run do
             match doHandler σ e with
             | some σ' => σ := σ'; nsteps := nsteps + 1; rules := bump rules e.name
             | none => return s!"invalid at={en.seq} reason=slot-released-but-exit-not-enabled:step={s}:event={e.name}:state={showSt (σ.loc s, σ.frm s)}"
+          | some ("D", _) =>
+            return s!"invalid at={en.seq} reason=slot-released-by-the-handler-before-the-thread-failure-releases-it-again:step={s}:state={showSt (σ.loc s, σ.frm s)} (the model's `die` step at Running gives the slot back exactly once; C13_slots_exact)"
           | _ => return s!"invalid at={en.seq} reason=slot-released-without-a-following-state:step={s}"
       else return s!"invalid at={en.seq} reason=unknown-slot-operation:{en.op}"
       if σ.slots != en.slots then
